@@ -15,19 +15,21 @@ from harness.drivers import shutdown as sd
 
 STREAM = ["disconnect", "eof", "peer_close", "proto_error"]
 KINDS = STREAM + ["local_close"]
-API_QUICK = ["recv", "recv_stderr", "send", "sendall", "exec_command", "invoke_shell", "recv_exit_status",
+API_QUICK = ["recv", "recv_stderr", "send", "sendall", "exec_command", "invoke_shell", "get_pty", "invoke_subsystem",
+             "recv_exit_status",
              "open_channel", "open_session", "global_request", "request_port_forward", "renegotiate_keys", "auth_password",
              "srt_auth_password", "accept"]
-API_MORE = ["get_pty", "invoke_subsystem", "auth_publickey", "srt_auth_publickey"]
-LABEL = {"before": "before", "mid": "racing", "at_unlink": "racing", "at_pclose": "racing",
+API_MORE = ["auth_publickey", "srt_auth_publickey"]
+LABEL = {"before": "before", "mid": "racing", "midlock": "racing", "at_unlink": "racing", "at_pclose": "racing",
          "at_sockclose": "racing", "after": "after", "race": "any"}
 NTRACE = 4
 
 
-def consts(apis, n=1, kinds=("eof", "local_close"), fix=True, omit="none", modes=("blocking", "timed"), nopoll=(), **kw):
+def consts(apis, n=1, kinds=("eof", "local_close"), fix=True, omit="none", modes=("blocking", "timed"), nopoll=(),
+           test_outside=False, **kw):
     d = {"N": n, "Apis": set(apis), "Modes": set(modes), "LossKinds": set(kinds),
          "FixAccept": fix, "FixEvent": fix, "FixEnsure": fix, "FixProxy": fix, "Omit": omit,
-         "NoPoll": "@{%s}" % ", ".join('"%s"' % x for x in nopoll)}
+         "EventTestOutside": test_outside, "NoPoll": "@{%s}" % ", ".join('"%s"' % x for x in nopoll)}
     d.update(kw)
     return d
 
@@ -92,6 +94,8 @@ def realisable(api, kind, plan):
     if plan == "at_unlink" and (kind == "local_close" or fam in ("auth", "srtauth")):
         return False      # close() unlinks before run() gets there; no channel exists before authentication
     if plan == "mid" and fam not in sd.MID_HOOK:
+        return False
+    if plan == "midlock" and fam != "chanreq":
         return False
     return True
 
@@ -199,6 +203,9 @@ def run(c):
              job("Shutdown", cfg_text(constants=consts(["global_request", "request_port_forward"], n=1, nopoll=("global",)),
                                       invariants=SAFETY),
                  "sensitivity: global_request waits on completion_event without polling `active` (stuck on close())",
+                 expect="NoStuck"),
+             job("Shutdown", cfg_text(constants=consts(["exec_command", "get_pty"], n=1, test_outside=True), invariants=SAFETY),
+                 "sensitivity: _event_pending tests `closed` before it takes Channel.lock (clear after close)",
                  expect="NoStuck")]
     pred_f, pred_r = widen(g_f.cases()), widen(g_r.cases())
     if set(pred_f) != set(pred_r):
@@ -368,7 +375,9 @@ def run(c):
                                      "results": obs["results"],
                                      "events": [[e["ev"], e.get("name") or e.get("kind") or e.get("w")] for e in obs["events"]]}
                                     if i == 0 and obs["plan"] in ("mid", "at_pclose") else None))
-        if not obs.get("established", True):
+        if any(x.startswith("unrealisable") for x in obs["notes"]):
+            c.conformance("unrealisable:%s:%s" % (obs["callers"][0][0], obs["plan"]), "; ".join(obs["notes"]))
+        elif not obs.get("established", True):
             not_est += 1
             c.conformance("not_established:%s:%s:%s" % (obs["callers"][0][0], obs["plan"], obs["kind"]),
                           "schedule not established: %s" % "; ".join(obs["notes"]))
